@@ -1,5 +1,5 @@
 (* Lemmas about Model/Regroup.v (property C17). *)
-From LedgerV Require Import Base.Prelude Base.Round Model.Amount Proofs.AmountProofs Model.Regroup.
+From LedgerV Require Import Base.Prelude Base.Round Model.Amount Proofs.AmountProofs Gen.ByPayeeLabel Model.Regroup.
 From Coq Require Import Permutation Sorting.Sorted Morphisms Setoid.
 Local Open Scope Z_scope.
 
@@ -1057,6 +1057,11 @@ Proof.
   intros F H. rewrite Forall_forall in F. apply (str_lt_irrefl k). now apply F.
 Qed.
 
+Lemma sorted_nodup (ks : list str) : StronglySorted str_lt ks -> NoDup ks.
+Proof.
+  induction 1 as [|k ks S IH M]; constructor; [|exact IH]. now apply sorted_not_in.
+Qed.
+
 Lemma vm_at_entry (m : values_map) : StronglySorted str_lt (map fst m) ->
   forall e c, In e m -> (vm_at (fst e) m c == den (fst (snd e)) c)%Q.
 Proof.
@@ -1119,20 +1124,20 @@ Proof.
 Qed.
 
 (* the rows are, bucket after bucket, the rows subtotal_posts reports for the bucket *)
-Lemma report_buckets_rows {K} (py : K -> payee) : forall m b rows,
+Lemma report_buckets_rows {K} (py : K -> list post -> payee) : forall m b rows,
   report_buckets py b m = Ok rows ->
   exists rr, rows = concat rr /\
-    Forall2 (fun e o => exists b', subtotal_group (fun _ => py (fst e)) (xid_subtotal b') (snd e) = Ok o) m rr.
+    Forall2 (fun e o => exists b', subtotal_group (py (fst e)) (xid_subtotal b') (snd e) = Ok o) m rr.
 Proof.
   induction m as [|[k ps] m IH]; intros b rows H; cbn [report_buckets] in H.
   - injection H as <-. exists []. split; [reflexivity|constructor].
-  - destruct (subtotal_group (fun _ => py k) (xid_subtotal b) ps) as [r|] eqn:R; cbn [bind] in H; [|discriminate].
+  - destruct (subtotal_group (py k) (xid_subtotal b) ps) as [r|] eqn:R; cbn [bind] in H; [|discriminate].
     destruct (report_buckets py (b + 1) m) as [rs|] eqn:RS; cbn [bind] in H; [|discriminate].
     injection H as <-. destruct (IH _ _ RS) as (rr & -> & F).
     exists (r :: rr). split; [reflexivity|]. constructor; [|exact F]. exists b. exact R.
 Qed.
 
-Lemma report_buckets_total {K} (py : K -> payee) m b rows c :
+Lemma report_buckets_total {K} (py : K -> list post -> payee) m b rows c :
   report_buckets py b m = Ok rows -> (sum_den rows c == buckets_total m c)%Q.
 Proof.
   intros H. destruct (report_buckets_rows py m b rows H) as (rr & -> & F).
@@ -1216,6 +1221,28 @@ Qed.
 (* --by-payee: the postings are partitioned by payee (distinct payees in order; every
    bucket holds postings of its payee only; together they are the input); each bucket is
    reported as by subtotal_posts; the grand total is preserved *)
+Theorem by_payee_mode_sums mode l rows :
+  by_payee_mode mode l = Ok rows ->
+  exists m rr,
+    Permutation (concat (map snd m)) l /\
+    StronglySorted str_lt (map fst m) /\
+    buckets_ok m /\
+    rows = concat rr /\
+    Forall2 (fun e o => exists b, subtotal_group (payee_label mode (fst e)) (xid_subtotal b) (snd e) = Ok o) m rr /\
+    forall c, (sum_den rows c == sum_den l c)%Q.
+Proof.
+  unfold by_payee_mode. intros H0.
+  assert (H : (do m <- payee_buckets [] l; report_buckets (payee_label mode) 0 m) = Ok rows)
+    by (destruct mode; [exact H0|exact H0|discriminate]).
+  clear H0. destruct (payee_buckets [] l) as [m|] eqn:B; cbn [bind] in H; [|discriminate].
+  destruct (payee_buckets_spec l [] m B) as (P & S & F).
+  destruct (report_buckets_rows (payee_label mode) m 0 rows H) as (rr & E & F2).
+  exists m, rr. split; [exact P|]. split; [apply S; constructor|]. split; [apply F; constructor|].
+  split; [exact E|]. split; [exact F2|].
+  intros c. rewrite (report_buckets_total (payee_label mode) m 0 rows c H), buckets_total_concat.
+  now apply sum_den_perm.
+Qed.
+
 Theorem by_payee_sums l rows :
   by_payee l = Ok rows ->
   exists m rr,
@@ -1223,17 +1250,9 @@ Theorem by_payee_sums l rows :
     StronglySorted str_lt (map fst m) /\
     buckets_ok m /\
     rows = concat rr /\
-    Forall2 (fun e o => exists b, subtotal_group (fun _ => PName (fst e)) (xid_subtotal b) (snd e) = Ok o) m rr /\
+    Forall2 (fun e o => exists b, subtotal_group (payee_label src_by_payee_label (fst e)) (xid_subtotal b) (snd e) = Ok o) m rr /\
     forall c, (sum_den rows c == sum_den l c)%Q.
-Proof.
-  unfold by_payee. destruct (payee_buckets [] l) as [m|] eqn:B; cbn [bind]; [|discriminate].
-  intros H. destruct (payee_buckets_spec l [] m B) as (P & S & F).
-  destruct (report_buckets_rows PName m 0 rows H) as (rr & E & F2).
-  exists m, rr. split; [exact P|]. split; [apply S; constructor|]. split; [apply F; constructor|].
-  split; [exact E|]. split; [exact F2|].
-  intros c. rewrite (report_buckets_total PName m 0 rows c H), buckets_total_concat.
-  now apply sum_den_perm.
-Qed.
+Proof. apply by_payee_mode_sums. Qed.
 
 Lemma day_of_week_range d : 0 <= day_of_week d < 7.
 Proof. unfold day_of_week. apply Z.mod_pos_bound. lia. Qed.
@@ -1264,11 +1283,11 @@ Theorem dow_sums l rows :
     forall c, (sum_den rows c == sum_den l c)%Q.
 Proof.
   unfold day_of_week_posts. intros H.
-  destruct (report_buckets_rows PDow _ 0 rows H) as (rr & E & F2).
+  destruct (report_buckets_rows (fun k _ => PDow k) _ 0 rows H) as (rr & E & F2).
   exists rr. repeat split; try assumption.
   - intros p _. exists (day_of_week (pdate p)). split; [|reflexivity].
     pose proof (day_of_week_range (pdate p)). unfold week. cbn [In]. lia.
-  - intros c. rewrite (report_buckets_total PDow _ 0 rows c H). symmetry. apply dow_split.
+  - intros c. rewrite (report_buckets_total (fun k _ => PDow k) _ 0 rows c H). symmetry. apply dow_split.
 Qed.
 
 (* --subtotal *)
@@ -1298,30 +1317,39 @@ Lemma totals_add_spec k v m : forall m',
   (forall k0 c, (tm_at k0 m' c == tm_at k0 m c + (if str_eqb k k0 then den v c else 0))%Q) /\
   (forall c, (tm_total m' c == tm_total m c + den v c)%Q) /\
   (forall k0, In k0 (map fst m') <-> k0 = k \/ In k0 (map fst m)) /\
-  (NoDup (map fst m) -> NoDup (map fst m')).
+  (StronglySorted str_lt (map fst m) -> StronglySorted str_lt (map fst m')).
 Proof.
   induction m as [|[k' v'] m IH]; intros m' H; cbn [totals_add] in H.
   - injection H as <-. cbn [tm_at tm_total map fst snd In]. split; [|split; [|split]].
     + intros. lra.
     + intros. lra.
     + intros. intuition congruence.
-    + intros _. constructor; [intros []|constructor].
-  - destruct (str_eqb k k') eqn:E.
+    + intros _. constructor; constructor.
+  - destruct (str_compare k k') eqn:E.
     + destruct (v_add false v' v) as [s|] eqn:A; cbn [bind] in H; [|discriminate].
-      injection H as <-. apply str_eqb_spec in E. subst k'.
+      injection H as <-. apply str_compare_eq in E. subst k'.
       cbn [tm_at tm_total map fst snd In]. split; [|split; [|split]].
       * intros k0 c. pose proof (v_add_exact _ _ _ _ c A). destruct (str_eqb k k0); lra.
       * intros c. pose proof (v_add_exact _ _ _ _ c A). lra.
       * intros. intuition congruence.
       * trivial.
+    + injection H as <-. cbn [tm_at tm_total map fst snd In]. split; [|split; [|split]].
+      * intros k0 c. destruct (str_eqb k k0), (str_eqb k' k0); lra.
+      * intros. lra.
+      * intros. intuition congruence.
+      * intros S. constructor; [exact S|]. inversion S as [|? ? S' M]; subst.
+        constructor; [exact E|]. rewrite Forall_forall in *. intros z Hz.
+        eapply str_compare_trans; [exact E | now apply M].
     + destruct (totals_add k v m) as [r|] eqn:R; cbn [bind] in H; [|discriminate].
       injection H as <-. destruct (IH r eq_refl) as (I1 & I2 & I3 & I4).
       cbn [tm_at tm_total map fst snd In]. split; [|split; [|split]].
       * intros. rewrite I1. lra.
       * intros. rewrite I2. lra.
       * intros. rewrite I3. intuition congruence.
-      * intros N. inversion N as [|? ? N1 N2]; subst. constructor; [|now apply I4].
-        rewrite I3. intros [->|Hin]; [|tauto]. rewrite str_eqb_refl in E. discriminate.
+      * intros S. inversion S as [|? ? S' M]; subst. constructor; [now apply I4|].
+        rewrite Forall_forall in *. intros z Hz. apply I3 in Hz. destruct Hz as [->|Hz].
+        -- unfold str_lt. rewrite str_compare_antisym, E. reflexivity.
+        -- now apply M.
 Qed.
 
 Definition key_is (depth : Z) (k : str) (p : post) : bool := str_eqb (totals_key depth p) k.
@@ -1331,7 +1359,7 @@ Lemma totals_feed_spec depth l : forall m m',
   (forall k c, (tm_at k m' c == tm_at k m c + sum_den (filter (key_is depth k) l) c)%Q) /\
   (forall c, (tm_total m' c == tm_total m c + sum_den l c)%Q) /\
   (forall k, In k (map fst m') <-> In k (map fst m) \/ exists p, In p l /\ totals_key depth p = k) /\
-  (NoDup (map fst m) -> NoDup (map fst m')).
+  (StronglySorted str_lt (map fst m) -> StronglySorted str_lt (map fst m')).
 Proof.
   induction l as [|p l IH]; intros m m' H; cbn [totals_feed] in H.
   - injection H as <-. cbn [filter sum_den]. repeat split; intros; try lra; try tauto.
@@ -1407,7 +1435,7 @@ Proof.
   intros H. destruct (collapse_group_cases _ _ _ _ H) as [(_ & _ & ->)|(m & F & ->)].
   - split; [intros; lra|now left].
   - destruct (totals_feed_spec depth comps [] m F) as (A1 & A2 & A3 & A4).
-    assert (N : NoDup (map fst m)) by (apply A4; constructor).
+    assert (N : NoDup (map fst m)) by (apply sorted_nodup, A4; constructor).
     assert (MP : map pacct (generated_rows depth g comps m) = map fst m).
     { unfold generated_rows. rewrite map_map. reflexivity. }
     split.
@@ -1608,7 +1636,7 @@ Proof.
   destruct G as [G|(N & I & S)].
   - (* rows = comps can still happen; the statement below holds for the generated rows *)
     destruct (totals_feed_spec depth comps [] m F) as (A1 & A2 & A3 & A4).
-    assert (ND : NoDup (map fst m)) by (apply A4; constructor).
+    assert (ND : NoDup (map fst m)) by (apply sorted_nodup, A4; constructor).
     assert (MP : map pacct (generated_rows depth g comps m) = map fst m)
       by (unfold generated_rows; rewrite map_map; reflexivity).
     rewrite MP. split; [exact ND|]. split; [|split; [|exact T]].
@@ -1724,18 +1752,33 @@ Qed.
 (* every row of --by-payee carries a payee name k and an account a and is the exact
    per-commodity sum of the input postings whose post_t::payee() is k and whose account is
    a; and every input posting belongs to the row of its payee and account *)
-Theorem by_payee_partition l rows :
-  by_payee l = Ok rows ->
-  (forall r, In r rows -> exists k, ppayee r = PName k /\
+(* the payee name a row's label stands for *)
+Definition payee_name (p : payee) : option str :=
+  match p with PName s => Some s | PFmt s _ => Some s | _ => None end.
+
+Lemma payee_label_name mode k comps : payee_name (payee_label mode k comps) = Some k.
+Proof.
+  unfold payee_label. destruct mode; try reflexivity.
+  destruct (has_percent k || (127 <=? Z.of_nat (length k))); reflexivity.
+Qed.
+
+Lemma payee_label_literal k comps : payee_label LabelLiteral k comps = PName k.
+Proof. reflexivity. Qed.
+
+Theorem by_payee_mode_partition mode l rows :
+  by_payee_mode mode l = Ok rows ->
+  (forall r, In r rows -> exists k, payee_name (ppayee r) = Some k /\
+     (mode = LabelLiteral -> ppayee r = PName k) /\
      forall c, (den (pamt r) c ==
                 sum_den (filter (fun p => payee_isb k p && acct_is (pacct r) p) l) c)%Q) /\
   (forall p, In p l -> exists k r, ppayee p = PName k /\ In r rows /\
-     ppayee r = PName k /\ pacct r = pacct p).
+     payee_name (ppayee r) = Some k /\ pacct r = pacct p).
 Proof.
-  intros H. destruct (by_payee_sums l rows H) as (m & rr & P & S & OK & -> & F2 & _). split.
+  intros H. destruct (by_payee_mode_sums mode l rows H) as (m & rr & P & S & OK & -> & F2 & _). split.
   - intros r Hr. apply in_concat in Hr. destruct Hr as (o & Ho & Hr).
     destruct (Forall2_in_r _ _ _ F2 o Ho) as ([k ps] & Hm & (b & G)). cbn [fst snd] in G.
-    exists k. split; [exact (subtotal_group_payee _ _ _ _ G r Hr)|]. intros c.
+    exists k. pose proof (subtotal_group_payee _ _ _ _ G r Hr) as Py.
+    split; [rewrite Py; apply payee_label_name|]. split; [intros ->; exact Py|]. intros c.
     destruct (RegroupProofs.subtotal_group_sums _ _ _ _ G) as (_ & _ & V & _). rewrite (V r c Hr).
     apply sum_den_perm. rewrite <- filter_filter.
     apply filter_perm. rewrite <- (bucket_is_filter m OK S k ps Hm). now apply filter_perm.
@@ -1750,7 +1793,7 @@ Proof.
     assert (In (pacct p) (map pacct o)) as Ha by (apply I; exists p; split; [exact Hp|reflexivity]).
     apply in_map_iff in Ha. destruct Ha as (r & Ea & Hr).
     exists k, r. split; [exact Hk|]. split; [apply in_concat; exists o; split; assumption|].
-    split; [exact (subtotal_group_payee _ _ _ _ G r Hr)|exact Ea].
+    split; [rewrite (subtotal_group_payee _ _ _ _ G r Hr); apply payee_label_name|exact Ea].
 Qed.
 
 (* ... and no two rows share payee and account: exactly one group per posting *)
@@ -1763,46 +1806,62 @@ Proof.
   - apply IH; [exact N2|exact Nb|]. intros y Hy. apply D. now right.
 Qed.
 
-Lemma sorted_nodup (ks : list str) : StronglySorted str_lt ks -> NoDup ks.
-Proof.
-  induction 1 as [|k ks S IH M]; constructor; [|exact IH]. now apply sorted_not_in.
-Qed.
-
 Definition row_key (r : post) : payee * str := (ppayee r, pacct r).
 
-Lemma by_payee_rows_nodup : forall (m : list (str * list post)) rr,
-  Forall2 (fun e o => exists b, subtotal_group (fun _ => PName (fst e)) (xid_subtotal b) (snd e) = Ok o) m rr ->
+Lemma by_payee_rows_nodup mode : forall (m : list (str * list post)) rr,
+  Forall2 (fun e o => exists b, subtotal_group (payee_label mode (fst e)) (xid_subtotal b) (snd e) = Ok o) m rr ->
   StronglySorted str_lt (map fst m) ->
   NoDup (map row_key (concat rr)) /\
-  forall r, In r (concat rr) -> exists k, In k (map fst m) /\ ppayee r = PName k.
+  forall r, In r (concat rr) -> exists k, In k (map fst m) /\ payee_name (ppayee r) = Some k.
 Proof.
   induction 1 as [|[k ps] o m rr (b & G) F IH]; intros S.
   - split; [constructor|intros r []].
   - cbn [map fst] in S. inversion S as [|? ? S' M]; subst. destruct (IH S') as [N I].
-    cbn [fst snd] in G. cbn [concat]. rewrite map_app. split.
+    cbn [fst snd] in G. cbn [concat]. rewrite map_app.
+    assert (P : forall r, In r o -> payee_name (ppayee r) = Some k).
+    { intros r Hr. rewrite (subtotal_group_payee _ _ _ _ G r Hr). apply payee_label_name. }
+    split.
     + apply nodup_app; [|exact N|].
       * destruct (RegroupProofs.subtotal_group_sums _ _ _ _ G) as (SS & _).
-        apply sorted_nodup in SS. clear -SS G.
-        assert (P : forall r, In r o -> ppayee r = PName k) by (exact (subtotal_group_payee _ _ _ _ G)).
-        clear G. induction o as [|r o IHo]; [constructor|]. cbn [map] in *.
+        apply sorted_nodup in SS. clear -SS.
+        induction o as [|r o IHo]; [constructor|]. cbn [map] in *.
         inversion SS as [|? ? N1 N2]; subst. constructor.
         -- intros H. apply in_map_iff in H. destruct H as (r' & E & Hr'). apply N1.
            unfold row_key in E. injection E as _ E. rewrite <- E. now apply in_map.
-        -- apply IHo; [exact N2|]. intros r' Hr'. apply P. now right.
+        -- now apply IHo.
       * intros x Hx Hx'. apply in_map_iff in Hx. destruct Hx as (r & <- & Hr).
         apply in_map_iff in Hx'. destruct Hx' as (r' & E & Hr').
         destruct (I r' Hr') as (k' & Hk' & Pk').
-        pose proof (subtotal_group_payee _ _ _ _ G r Hr) as Pk. cbn beta in Pk.
-        unfold row_key in E. injection E as E _. rewrite Pk, Pk' in E. injection E as ->.
+        pose proof (P r Hr) as Pk.
+        unfold row_key in E. injection E as E _. rewrite E in Pk'. rewrite Pk in Pk'. injection Pk' as ->.
         rewrite Forall_forall in M. exact (str_lt_irrefl _ (M _ Hk')).
     + intros r Hr. apply in_app_iff in Hr. destruct Hr as [Hr|Hr].
-      * exists k. split; [now left|exact (subtotal_group_payee _ _ _ _ G r Hr)].
+      * exists k. split; [now left|exact (P r Hr)].
       * destruct (I r Hr) as (k' & Hk' & Pk'). exists k'. split; [now right|exact Pk'].
 Qed.
 
-Theorem by_payee_one_row_per_group l rows :
-  by_payee l = Ok rows -> NoDup (map row_key rows).
+Theorem by_payee_mode_one_row_per_group mode l rows :
+  by_payee_mode mode l = Ok rows -> NoDup (map row_key rows).
 Proof.
-  intros H. destruct (by_payee_sums l rows H) as (m & rr & _ & S & _ & -> & F2 & _).
-  exact (proj1 (by_payee_rows_nodup m rr F2 S)).
+  intros H. destruct (by_payee_mode_sums mode l rows H) as (m & rr & _ & S & _ & -> & F2 & _).
+  exact (proj1 (by_payee_rows_nodup mode m rr F2 S)).
+Qed.
+
+(* sort after a regrouping: whatever rows reach sort_posts, it returns a permutation of them *)
+Theorem sort_after_regroup_perm o l rows :
+  report o l = Ok rows -> o_head o = None -> o_tail o = None ->
+  exists c, before_sort o l = Ok c /\
+    Permutation c (map fst rows) /\
+    forall cm, (den (last (map snd rows) VVoid) cm == sum_den c cm)%Q.
+Proof.
+  unfold report. intros H Hh Ht. destruct (before_sort o l) as [c|]; cbn [bind] in H; [|discriminate].
+  exists c. split; [reflexivity|].
+  destruct (stage_sort (o_sort o) c) as [s|] eqn:S; cbn [bind] in H; [|discriminate].
+  destruct (calc VVoid s) as [r|] eqn:C; cbn [bind] in H; [|discriminate].
+  injection H as <-. rewrite Hh, Ht. cbn [stage_truncate].
+  destruct (calc_spec s VVoid r C) as [M _]. rewrite M.
+  assert (P : Permutation c s).
+  { unfold stage_sort in S. destruct (o_sort o) as [ks|]; [|injection S as <-; reflexivity].
+    exact (proj1 (sort_posts_perm _ _ _ S)). }
+  split; [exact P|]. intros cm. rewrite (calc_grand_total s r cm C). symmetry. now apply sum_den_perm.
 Qed.
